@@ -323,6 +323,21 @@ mod tests {
     use super::*;
 
     #[test]
+    fn test_cigar_with_placeholder_and_non_u32_cg_array() {
+        // 1 base, stored CIGAR 1S39N (placeholder), CG:B,S with 5 elements (10 bytes)
+        const SRC: &[u8] = &[
+            0xff, 0xff, 0xff, 0xff, 0xff, 0xff, 0xff, 0xff, 0x02, 0xff, 0x48, 0x12, 0x02, 0x00,
+            0x04, 0x00, 0x01, 0x00, 0x00, 0x00, 0xff, 0xff, 0xff, 0xff, 0xff, 0xff, 0xff, 0xff,
+            0x00, 0x00, 0x00, 0x00, 0x71, 0x00, 0x14, 0x00, 0x00, 0x00, 0x73, 0x02, 0x00, 0x00,
+            0xf0, 0xff, 0x43, 0x47, 0x42, 0x53, 0x05, 0x00, 0x00, 0x00, 0x00, 0x04, 0x03, 0x00,
+            0x06, 0x2f, 0x06, 0x07, 0x06, 0x04,
+        ];
+
+        let record = RecordRef::new(SRC).unwrap();
+        assert_eq!(record.cigar().iter().count(), 2);
+    }
+
+    #[test]
     fn test_fields() -> io::Result<()> {
         const SRC: &[u8; 44] = &[
             0xff, 0xff, 0xff, 0xff, // ref_id = -1
